@@ -4,7 +4,7 @@
       is what the OCaml driver runs; the families of user closures are the
       ones the Rust harness implements as well. *)
 
-From CB Require Export Ops Spec.
+From CB Require Export Ops Spec SpecMon Pipe.
 
 Set Implicit Arguments.
 
@@ -105,3 +105,93 @@ Definition monitor_trace (sp : spec) (pull : bool) (nsk : nat) (tr : list event)
   rev (viols (mon_trace (params_of_spec sp pull nsk) tr)).
 
 Definition classes_trace (tr : list event) : list kclass := classes tr.
+
+Definition mspec_of_spec (sp : spec) : mspec :=
+  match sp with
+  | SpMap a b => MsMap (aff a b)
+  | SpFilter m r => MsFilter (cond_mod m r)
+  | SpScan k seed => MsScan (red k) (VN seed)
+  | SpTake n => MsTake n
+  | SpSkip n => MsSkip n
+  | SpFromIter xs inf => MsFromIter (iter_of xs inf)
+  | SpForEach => MsOther
+  | SpMerge n => MsMerge n
+  | SpConcat n => MsConcat n
+  | SpCombine n => MsCombine n
+  | SpFlatten => MsFlatten
+  | SpShare => MsShare
+  | SpInterval => MsInterval
+  end.
+
+Definition smonitor_trace (sp : spec) (pull : bool) (nsk : nat) (tr : list event) : list sviol :=
+  smon_trace (params_of_spec sp pull nsk) (mspec_of_spec sp) tr.
+
+Definition run_pipe_spec := run_pipe.
+
+(** ** Thread experiments (C18, C19) *)
+From CB Require Export ThreadSpec.
+
+Inductive tsys : Type :=
+| TsTake (fixed : bool) (max : nat)
+| TsMerge (n : nat)
+| TsCombine (fixed : bool) (n : nat)
+| TsTakeMerge (max : nat).     (* real crate only: no model *)
+
+Definition trun (sys : tsys) (nth : nat) (qs : nat -> list val) (fins : nat -> final)
+  (sch : list nat) (fuel : nat) : list tevent * list tviol :=
+  match sys with
+  | TsTake fixed max =>
+      let s := run_full (tk_step fixed max) tk_finished nth sch fuel (tk_init qs) in
+      let tr := rev (tks_tr s) in (tr, take_check max tr)
+  | TsMerge n =>
+      let s := run_full (mg_step n) mg_finished nth sch fuel (mg_init n qs fins) in
+      let tr := rev (mgs_tr s) in (tr, merge_check n qs fins tr)
+  | TsCombine fixed n =>
+      let s := run_full (cb_step fixed n) cb_finished nth sch fuel (cb_init n qs fins) in
+      let tr := rev (cbs_tr s) in (tr, combine_check n qs fins tr)
+  | TsTakeMerge _ => ([], [])
+  end.
+
+(** the checks alone, for traces recorded from the real crate *)
+Definition tcheck (sys : tsys) (qs : nat -> list val) (fins : nat -> final) (tr : list tevent)
+  : list tviol :=
+  match sys with
+  | TsTake _ max => take_check max tr
+  | TsMerge n => merge_check n qs fins tr
+  | TsCombine _ n => combine_check n qs fins tr
+  | TsTakeMerge max => takemerge_check max tr
+  end.
+
+(** for exhaustive exploration by the driver: one step, which threads can move *)
+Inductive tstate : Type :=
+| TSt_take (s : tk_state) | TSt_merge (s : mg_state) | TSt_combine (s : cb_state).
+
+Definition tinit (sys : tsys) (qs : nat -> list val) (fins : nat -> final) : tstate :=
+  match sys with
+  | TsTake _ _ => TSt_take (tk_init qs)
+  | TsMerge n => TSt_merge (mg_init n qs fins)
+  | TsCombine _ n => TSt_combine (cb_init n qs fins)
+  | TsTakeMerge _ => TSt_take (tk_init qs)
+  end.
+
+Definition tstep1 (sys : tsys) (st : tstate) (t : nat) : tstate :=
+  match sys, st with
+  | TsTake fixed max, TSt_take s => TSt_take (tk_step fixed max s t)
+  | TsMerge n, TSt_merge s => TSt_merge (mg_step n s t)
+  | TsCombine fixed n, TSt_combine s => TSt_combine (cb_step fixed n s t)
+  | _, _ => st
+  end.
+
+Definition tfinished (st : tstate) (t : nat) : bool :=
+  match st with
+  | TSt_take s => tk_finished s t
+  | TSt_merge s => mg_finished s t
+  | TSt_combine s => cb_finished s t
+  end.
+
+Definition ttrace (st : tstate) : list tevent :=
+  match st with
+  | TSt_take s => rev (tks_tr s)
+  | TSt_merge s => rev (mgs_tr s)
+  | TSt_combine s => rev (cbs_tr s)
+  end.
